@@ -101,11 +101,24 @@ func (d *DurationStats) Record(nanoseconds int64) {
 	d.running.Add(nanoseconds)
 }
 
-func (d *DurationStats) CollectLifetime() (IterationDurationsSnapshot, IterationDurationsSnapshot) {
-	running := d.running.Snapshot()
-	d.lifetime.Update(&d.running)
-	verifhook.At("progress.collect")
-	d.running.Reset()
+// drain moves everything accumulated so far out of i and leaves it empty.
+//
+// Every field is taken with a single atomic swap, so an Add that runs concurrently either
+// ends up in the drained values or stays in i for the next drain: it is never lost.
+func (i *IterationDurations) drain() *IterationDurations {
+	drained := &IterationDurations{}
+	drained.count.Store(i.count.Swap(0))
+	drained.sum.Store(i.sum.Swap(0))
+	drained.min.Store(i.min.Swap(0))
+	drained.max.Store(i.max.Swap(0))
 
-	return running, d.lifetime.Snapshot()
+	return drained
+}
+
+func (d *DurationStats) CollectLifetime() (IterationDurationsSnapshot, IterationDurationsSnapshot) {
+	recent := d.running.drain()
+	verifhook.At("progress.collect")
+	d.lifetime.Update(recent)
+
+	return recent.Snapshot(), d.lifetime.Snapshot()
 }
